@@ -62,7 +62,10 @@ impl Out {
     }
     pub fn case(&mut self, req: &str, real: &str) {
         debug_assert!(!req.contains('\t') && !req.contains('\n'));
-        let real = real.replace('\n', "\\n").replace('\t', "\\t");
+        // one case per physical line: no raw line-break character may survive (a lone '\r' is a line break to
+        // readers in universal-newline mode)
+        let real = real.replace('\n', "\\n").replace('\t', "\\t").replace('\r', "\\r");
+        let req = req.replace('\r', "\\r");
         writeln!(self.w, "{req}\t{real}").expect("write");
         self.n += 1;
     }
